@@ -1857,6 +1857,13 @@ def run(ctx):
     ctx.cov["kerx_plan"] = {f"{d}/{f}": v for (d, f), v in kplans.items()}
     ctx.correspond("kerx-driver", lines=kerx_drv_lines(ctx.rng("kxdrv"), ctx.budget(3000, 150000), kplans),
                    classify=classify_kxdrv, canon=canon)
+    # machine_kern / kerx apply_simple_kerning with the real skipping iterator and their flag calls (PairFlag.lean), positions incl.
+    import _pairflag as PF
+    import _gposflag as GFc
+    pcc = int(vlib.run_lines(shim, ["bufconst"], nproc=1)[0].split()[0])
+    rk = ctx.rng("pair-span")
+    ctx.correspond("kern-machine-flags", lines=PF.mk_lines(rk, ctx.budget(3000, 100000), pcc), classify=PF.classify_k, canon=GFc.canon)
+    ctx.correspond("kerx-simple-flags", lines=PF.kx_lines(rk, ctx.budget(2000, 60000), pcc, kplans), classify=PF.classify_k, canon=GFc.canon)
     ctx.correspond("gpos-lookup", groups=pos_groups(shim, ctx.rng("pos"), ctx.budget(150, 6000), ctx.budget(12, 16)),
                    classify=classify_pos, canon=canon, only=lambda ln: ln.startswith("gp pos"))
     corpus_seeds(ctx, shim)
